@@ -93,6 +93,8 @@ impl RespPlan {
 pub enum ClSpec {
     Absent,
     Num(u64),
+    /// a number written with this many leading zeros (still 1*DIGIT)
+    Padded(u64, usize),
     Raw(&'static str),
 }
 
@@ -100,6 +102,7 @@ pub fn cl_class(c: &ClSpec) -> ClClass {
     match c {
         ClSpec::Absent => ClClass::Absent,
         ClSpec::Num(n) => ClClass::Num(*n),
+        ClSpec::Padded(n, _) => ClClass::Num(*n),
         ClSpec::Raw(s) => {
             if *s == "+5" {
                 ClClass::Plus
@@ -155,6 +158,7 @@ pub fn build_resp(ctx: &mut Ctx, method: &str, s: &RespSpec) -> RespPlan {
     match &s.cl {
         ClSpec::Absent => {}
         ClSpec::Num(n) => special.push(Field::plain(if ctx.flip() { "Content-Length" } else { "content-length" }, &n.to_string())),
+        ClSpec::Padded(n, z) => special.push(Field::plain("Content-Length", &format!("{}{}", "0".repeat(*z), n))),
         ClSpec::Raw(r) => special.push(Field::plain("Content-Length", r)),
     }
     if let Some(te) = s.te {
@@ -591,8 +595,15 @@ pub fn c06(ctx: &mut Ctx) -> R {
     let extra_dontcare = ctx.chance(1, 50);
     let cl = match clc {
         0 => ClSpec::Absent,
-        1 => ClSpec::Num(0),
-        2 => ClSpec::Num(if ctx.chance(1, 6) { ctx.range(1, 20_000) as u64 } else { ctx.range(1, 100) as u64 }),
+        1 => if ctx.chance(1, 6) { ClSpec::Padded(0, ctx.range(1, 25)) } else { ClSpec::Num(0) },
+        2 => {
+            let n = if ctx.chance(1, 6) { ctx.range(1, 20_000) as u64 } else { ctx.range(1, 100) as u64 };
+            if ctx.chance(1, 5) {
+                ClSpec::Padded(n, ctx.range(1, 30))
+            } else {
+                ClSpec::Num(n)
+            }
+        }
         3 => ClSpec::Num(u64::MAX),
         4 => ClSpec::Raw("18446744073709551616"),
         _ => ClSpec::Raw(if extra_dontcare { "+5" } else { *ctx.pick(&CL_BAD) }),
@@ -602,7 +613,7 @@ pub fn c06(ctx: &mut Ctx) -> R {
         1 => Some("chunked"),
         2 => Some(*ctx.pick(&["Chunked", "CHUNKED", "cHuNkEd"])),
         3 => Some(if extra_dontcare { "chunked, gzip" } else { *ctx.pick(&["gzip, chunked", "gzip,chunked", "deflate , gzip ,  chunked"]) }),
-        _ => Some(*ctx.pick(&["gzip", "identity", "deflate, gzip"])),
+        _ => Some(*ctx.pick(&["gzip", "identity", "deflate, gzip", "chunke", "chunkedx", "chunked-x", "xchunked", "gzip,", "gzip, , deflate", ",gzip", "c"])),
     };
     // request: valid for the method (HTTP/1.1 so that every method is allowed)
     let mut cfg = gen_valid_req(ctx, false, true);
@@ -849,7 +860,7 @@ pub fn c10(ctx: &mut Ctx) -> R {
         let (cl, te) = match kind {
             0 => (ClSpec::Absent, None),
             1 | 3 => (ClSpec::Num(ctx.range(0, 40) as u64), None),
-            2 => (ClSpec::Absent, Some("chunked")),
+            2 => (if ctx.chance(1, 6) { ClSpec::Num(ctx.range(1, 30) as u64) } else { ClSpec::Absent }, Some(*ctx.pick(&["chunked", "chunked", "gzip, chunked", "gzip,chunked", "Chunked"]))),
             _ => (ClSpec::Absent, None),
         };
         let conn: Vec<&'static str> = if all_five {
@@ -1086,6 +1097,16 @@ pub fn c11(ctx: &mut Ctx) -> R {
     set_observed(true);
     let mut policy = Policy::draw(ctx, policy_await);
     policy.lat_ns = *ctx.pick(&[0u64, 200, 20_000, 3_000_000]);
+    if ctx.chance(1, 5) {
+        // aim the timer into the arrival window of the peer's first head: think time, then one
+        // segment every <= 200 us, timer somewhere in between
+        policy.lat_ns = 200_000;
+        policy.think_ns = policy.think_ns.min(10_000);
+        if let AwaitPolicy::Timer(_) = policy.await_policy {
+            policy.await_policy = AwaitPolicy::Timer(think1.min(50_000_000) + ctx.draw(200_000 * (cuts.len() as u64 + 2)));
+        }
+        ctx.count("f:timer_aimed_into_head");
+    }
     let ex = Exchange { prop: "C11", body: &body, policy, server: ServerPlan { msgs, close_after: final_plan.truth == RF::Close }, fixed_stream: None };
     let obs = ex.run(ctx, start)?;
 
